@@ -103,7 +103,14 @@ def cases(tier, seed):
                     del px[(a, b)]
         pxl = [[a, b, v] for (a, b), v in sorted(px.items())]
         o = opts(rng.choice(["genome", "cis"]), 2, rng.choice([0, 1]), rng.choice([0, 4, 9]), True, [], [], True)
-        yield "bl.balance", {"table": gen.binnify([n], 1), "px": pxl, "o": o, "chunk": rng.choice([0, 3]), "store": False,
+        # empty bins (rows without any pixel): trailing ones on the same chromosome, and / or a second chromosome that holds
+        # a block of its own plus empty bins - the median the filter compares with is taken over bins WITH data
+        lens = [n + F_h("trailing_empty", 4)]
+        if F_h("second_chrom", 3) == 0:
+            m2 = rng.choice([7, 8])
+            pxl += circulant(m2, [(2, 8), (3, 8)], base=lens[0])
+            lens.append(m2 + rng.choice([0, 3, 6]))
+        yield "bl.balance", {"table": gen.binnify(lens, 1), "px": pxl, "o": o, "chunk": rng.choice([0, 3]), "store": False,
                              "witness": False}
 
 
